@@ -26,6 +26,7 @@ def run(tier, seed, replay=None):
         cases += [drv.gen_pairrows(rng) for _ in range(150 if tier == "quick" else 2500)]
         cases += [drv.gen_switch(rng) for _ in range(120 if tier == "quick" else 2000)]
         cases += [drv.gen_genint(rng) for _ in range(100 if tier == "quick" else 1500)]
+        cases += [drv.gen_stair(rng) for _ in range(400 if tier == "quick" else 4000)]
     hist_replay = None
     if replay and "history" in cases[0]:
         hist_replay, cases = cases[0], []
